@@ -36,6 +36,22 @@ def put(s, tag, text):
         return s
     i, j = s.index(a) + len(a), s.index(b)
     return s[:i] + '\n' + text + s[j:]
-s = put(s, 'FINDINGS', text11); s = put(s, 'SEEDS', text12)
+import ast
+rowsP = []
+for mp in sorted(glob.glob(os.path.join(here, 'props', 'C[0-9][0-9]_*.py'))):
+    c = {}
+    for n in ast.parse(open(mp).read()).body:
+        if isinstance(n, ast.Assign) and len(n.targets) == 1 and isinstance(n.targets[0], ast.Name):
+            try: c[n.targets[0].id] = ast.literal_eval(n.value)
+            except Exception: pass
+    pid = os.path.basename(mp)[:3]
+    ev = {}
+    try: ev = json.load(open(os.path.join(here, 'evidence', pid + '.json')))
+    except Exception: pass
+    cov = ev.get('coverage', {})
+    nums = ', '.join('%s=%s' % (k, cov[k]) for k in ('evaluations', 'distinct_nontrivial', 'states', 'transitions', 'traces_validated_against_impl', 'programs') if k in cov)
+    rowsP.append('| %s | %s | %s | %s | %s | %s (quick, %ss) |' % (pid, os.path.basename(mp), c.get('LEVEL', ''), esc(c.get('TECHNIQUE', '')), esc(c.get('LEVEL_TEXT', ''))[:900], nums, ev.get('wall_s', '?')))
+text10 = ('| id | module | level | technique | what is enumerated and the oracle (LEVEL_TEXT) | last committed evidence |\n|---|---|---|---|---|---|\n' + '\n'.join(rowsP) + '\n')
+s = put(s, 'FINDINGS', text11); s = put(s, 'SEEDS', text12); s = put(s, 'CHECKS', text10)
 open(p, 'w').write(s)
 print('fixed', len(fixed), 'known', len(known), 'seeds', len(rows))
